@@ -1,4 +1,5 @@
 import OutlineModel.Proofs.TieMisc
+import OutlineModel.Proofs.TieAuth
 import OutlineModel.Proofs.TieSalt
 import OutlineModel.Model.Auth
 import OutlineModel.Proofs.CipherList
@@ -139,5 +140,71 @@ theorem code_marked_iff_enough_entropy (saltSize : GoRT.Opaque "shadowsocks.Encr
       | false => rfl
       | true => exact absurd (h.1 hmk) h20
     simp [this, h20]
+
+/-- **code_server_salt_is_refused_before_the_cache**: the translated stream authenticator (the function literal of
+    `NewShadowsocksStreamAuthenticator`, service/tcp.go), for every behaviour of its collaborators: when the salt
+    generator of the entry the key search found recognises the salt as one of the server's own, the result is
+    ERR_REPLAY_SERVER with that entry's key id, no connection is handed back, and the replay cache is not consulted or
+    changed (the result is the same cache) — a reflected server handshake cannot evict or poison client salts. -/
+theorem code_server_salt_is_refused_before_the_cache
+    (newReader : GoRT.Opaque "io.Reader" → GoRT.Opaque "shadowsocks.EncryptionKey" → GoRT.Opaque "shadowsocks.Reader")
+    (newWriter : Tie.Auth.Conn → GoRT.Opaque "shadowsocks.EncryptionKey" → GoRT.Opaque "shadowsocks.Writer")
+    (isSrv : GoRT.Opaque "service.ServerSaltGenerator" → List UInt8 → Bool)
+    (wrap : Tie.Auth.Conn → GoRT.Opaque "shadowsocks.Reader" → GoRT.Opaque "shadowsocks.Writer" → Tie.Auth.Conn)
+    (findAccessKey : Tie.Auth.Conn → GoRT.Opaque "netip.Addr" → GoRT.Opaque "service.CipherList" → GoRT.Opaque "slog.Logger" → Tie.Auth.FA)
+    (remoteIP : Tie.Auth.Conn → GoRT.Opaque "netip.Addr")
+    (ciphers : GoRT.Opaque "service.CipherList") (metrics : GoRT.Opaque "service.ShadowsocksConnMetrics")
+    (l : GoRT.Opaque "slog.Logger") (rc : Gen.Code.ReplayCache) (conn : Tie.Auth.Conn)
+    (e : Gen.Code.CipherEntry) (rd : GoRT.Opaque "io.Reader") (salt : List UInt8) (t : Int)
+    (hfa : findAccessKey conn (remoteIP conn) ciphers l = (some e, rd, salt, t, none))
+    (hsrv : isSrv e.SaltGenerator salt = true) :
+    Gen.Code.NewShadowsocksStreamAuthenticator newReader newWriter isSrv wrap findAccessKey remoteIP ciphers rc metrics l conn =
+      some (rc, e.ID, ⟨0⟩, some "ERR_REPLAY_SERVER", [Tie.Auth.searchEff metrics true t]) := by
+  rw [Tie.Auth.authenticator_tie, hfa]
+  simp [Tie.Auth.outcome, hsrv]
+
+/-- **code_accepted_connection_writes_marked_salts**: when the translated authenticator accepts a connection, the
+    encrypting writer it wraps the connection with is given the salt generator of the entry that authenticated it — the
+    one call it makes on the writer — so that the server's own salts on this connection carry that key's mark. -/
+theorem code_accepted_connection_writes_marked_salts
+    (newReader : GoRT.Opaque "io.Reader" → GoRT.Opaque "shadowsocks.EncryptionKey" → GoRT.Opaque "shadowsocks.Reader")
+    (newWriter : Tie.Auth.Conn → GoRT.Opaque "shadowsocks.EncryptionKey" → GoRT.Opaque "shadowsocks.Writer")
+    (isSrv : GoRT.Opaque "service.ServerSaltGenerator" → List UInt8 → Bool)
+    (wrap : Tie.Auth.Conn → GoRT.Opaque "shadowsocks.Reader" → GoRT.Opaque "shadowsocks.Writer" → Tie.Auth.Conn)
+    (findAccessKey : Tie.Auth.Conn → GoRT.Opaque "netip.Addr" → GoRT.Opaque "service.CipherList" → GoRT.Opaque "slog.Logger" → Tie.Auth.FA)
+    (remoteIP : Tie.Auth.Conn → GoRT.Opaque "netip.Addr")
+    (ciphers : GoRT.Opaque "service.CipherList") (metrics : GoRT.Opaque "service.ShadowsocksConnMetrics")
+    (l : GoRT.Opaque "slog.Logger") (rc rc' : Gen.Code.ReplayCache) (conn c' : Tie.Auth.Conn) (id : String) (effs : List GoRT.Eff)
+    (hok : Gen.Code.NewShadowsocksStreamAuthenticator newReader newWriter isSrv wrap findAccessKey remoteIP ciphers rc metrics l conn =
+      some (rc', id, c', none, effs)) :
+    ∃ e, (findAccessKey conn (remoteIP conn) ciphers l).1 = some e ∧ id = e.ID ∧
+      isSrv e.SaltGenerator (findAccessKey conn (remoteIP conn) ciphers l).2.2.1 = false ∧
+      Tie.Auth.saltGenEff (newWriter conn e.CryptoKey) e.SaltGenerator ∈ effs ∧
+      c' = wrap conn (newReader (findAccessKey conn (remoteIP conn) ciphers l).2.1 e.CryptoKey) (newWriter conn e.CryptoKey) := by
+  rw [Tie.Auth.authenticator_tie] at hok
+  rcases hfa : findAccessKey conn (remoteIP conn) ciphers l with ⟨ent, rd, salt, t, err⟩
+  rw [hfa] at hok
+  cases err with
+  | some x => simp [Tie.Auth.outcome] at hok
+  | none =>
+    cases ent with
+    | none => simp [Tie.Auth.outcome] at hok
+    | some e =>
+      rw [Tie.Auth.outcome_found] at hok
+      by_cases hs : isSrv e.SaltGenerator salt = true
+      · simp [hs] at hok
+      · simp only [hs, if_false] at hok
+        generalize (String.toUTF8 e.ID).toList = idb at hok
+        cases hadd : Gen.Code.ReplayCache.Add rc idb salt with
+        | none => rw [hadd] at hok; simp at hok
+        | some p =>
+          obtain ⟨r2, fresh⟩ := p
+          rw [hadd] at hok
+          cases fresh
+          · simp at hok
+          · simp at hok
+            obtain ⟨_, h2, h3, h4⟩ := hok
+            refine ⟨e, rfl, h2.symm, by simpa using hs, ?_, h3.symm⟩
+            rw [← h4]; simp
 
 end OutlineModel.Props.C08
